@@ -45,7 +45,7 @@ def strings(cfg, rng):
     corp = WT.corpus()
     from . import _rulecommon as RC
 
-    for i, s in enumerate(RC.long_texts()):
+    for i, s in enumerate(RC.long_texts() + RC.huge_token_texts()):
         if cfg.mine(i):
             yield "long", s
     for i, s in enumerate(corp):
@@ -113,7 +113,7 @@ def run(rec, cfg):
         if cfg.out_of_time():
             rec.truncated = True
             break
-        if len(s) > 1500:
+        if len(s) > 1500 and src != "long":
             continue
         rec.arm("workload:" + src)
         try:
